@@ -228,3 +228,108 @@ Proof. exact nonvacuous_pbs_pruned. Qed.
 Example c05_pbs_full_nonvacuous :
   pbs_full 1 ex1 (plain_score ex1) 1 (pbs_cands 1 ex1 (plain_score ex1) 0 pbs_init).
 Proof. exact nonvacuous_pbs_full. Qed.
+
+(* ================================================================================================
+   SOURCE TIE (tensor code).  PV.Gen.C05Src.cpsa_body is the MiniPy term that harness/py2coq/translate.py
+   regenerates from the Python text of `ctc_prefix_search_advance` (src/pydrobert/torch/_decoding.py, the WHOLE
+   body) on every run; it is interpreted by MiniPy.Interp with the torch calls given meaning by
+   SrcRun.ext05 = the tensor definitions of MiniTorch.OpsC05 (floats = exact rationals or -inf, IEEE rounding,
+   dtypes beyond the element kind, devices, strides and TorchScript not modelled; torch.topk's indices come
+   from an oracle because torch leaves ties unspecified).  ONE batch element (N = 1), as the model.
+   Hypotheses: the model's own well-formedness ProofsModel.wf (every list of the beam has its length, 1 <= K',
+   lengths <= t), 1 <= V, 1 <= width.  The proof is block by block in execution order (Tie.cands_model,
+   to_match_model, merge_model, choose_model, prefix_model, pad_model); every block is proved, so the
+   statements below are about the whole function.
+   ================================================================================================ *)
+From PV Require MiniPy.Syntax MiniPy.Interp MiniTorch.OpsC05 Gen.C05Src C05.SrcRun C05.TieRun C05.Tie C05.TieCheck.
+
+(* for EVERY topk oracle: if it answers [choice] on the candidate row and [choice] has Kout entries, all of them
+   candidate indices, the interpreted source returns exactly the seven tensors that encode Model.advance under
+   that choice (y_next incl. the cells outside the prefixes, y_next_last, y_next_lens, (nb, b), next_is_prefix,
+   next_src, next_is_nonext; the invalid fill slots included) *)
+Theorem c05_source_advance_is_model_any_oracle : forall sel V width fr bm choice,
+  sel 0 (map (cand V fr bm) (seq 0 (ncand V bm))) (Kout V bm width) = choice ->
+  1 <= V -> 1 <= width -> wf bm -> length choice = Kout V bm width ->
+  (forall i, In i choice -> i < ncand V bm) ->
+  exists st, Interp.run (SrcRun.ext05 sel) C05Src.cpsa_body (SrcRun.advance_vars V width fr bm)
+             = Interp.Ok (SrcRun.enc_out (advance V fr bm width choice)) st.
+Proof. exact Tie.advance_tie_sel. Qed.
+Print Assumptions c05_source_advance_is_model_any_oracle.
+
+(* the oracle answers a given list - the form the harness runs (the answer it observed from torch) *)
+Theorem c05_source_advance_is_model : forall V width fr bm choice,
+  1 <= V -> 1 <= width -> wf bm -> length choice = Kout V bm width ->
+  (forall i, In i choice -> i < ncand V bm) ->
+  exists st, SrcRun.run_advance V width fr bm choice
+             = Interp.Ok (SrcRun.enc_out (advance V fr bm width choice)) st.
+Proof. exact Tie.advance_tie. Qed.
+Print Assumptions c05_source_advance_is_model.
+
+(* topk = the model's stable selection (as in the C04 tie): no hypothesis about the choice is left *)
+Theorem c05_source_advance_is_model_stable : forall V width fr bm,
+  1 <= V -> 1 <= width -> wf bm ->
+  exists st, SrcRun.run_advance_stable V width fr bm
+             = Interp.Ok (SrcRun.enc_out (advance V fr bm width (Tie.stable_choice V width fr bm))) st.
+Proof. exact Tie.advance_tie_stable. Qed.
+Print Assumptions c05_source_advance_is_model_stable.
+
+(* the same in the executable form the harness evaluates on the step cases of every run: the seven tensors read
+   back as the model's (beam, (src, nonext)) ARE Model.advance's result ... *)
+Theorem c05_source_advance_refines_model : forall V width fr bm choice,
+  1 <= V -> 1 <= width -> wf bm -> length choice = Kout V bm width ->
+  (forall i, In i choice -> i < ncand V bm) ->
+  SrcRun.src_advance V width fr bm choice = Some (advance V fr bm width choice).
+Proof. exact TieCheck.src_advance_tie. Qed.
+Print Assumptions c05_source_advance_refines_model.
+
+(* ... and the harness-side check of the interpreted source is the model's own check (for every observed
+   answer: one that Model.topk_ok rejects makes both false) *)
+Theorem c05_source_advance_check_is_check : forall V width fr bm choice o_y o_last o_lens o_nb o_b o_isp o_src o_nonext,
+  1 <= V -> 1 <= width -> wf bm ->
+  SrcRun.src_advance_check V width fr bm choice o_y o_last o_lens o_nb o_b o_isp o_src o_nonext
+  = check_advance V width fr bm choice o_y o_last o_lens o_nb o_b o_isp o_src o_nonext.
+Proof. exact TieCheck.src_advance_check_is_check. Qed.
+Print Assumptions c05_source_advance_check_is_check.
+
+(* below the model: for EVERY oracle and ALL argument tensors of the shapes the function asks for (any N, K', V, S,
+   any data, width >= 1) the interpreted source and the straight-line tensor program TieRun.adv_tensor agree -
+   the same seven tensors, outside the modelled domain together *)
+Theorem c05_source_advance_is_tensor_program : forall sel ext nonext blank w nb b y last lens isp N Kp V tm1,
+  OpsC05.shp ext = [N; Kp; V] -> OpsC05.shp nonext = [N; V] -> OpsC05.shp blank = [N] ->
+  OpsC05.shp nb = [N; Kp] -> OpsC05.shp b = [N; Kp] -> OpsC05.shp y = [tm1; N; Kp] ->
+  OpsC05.shp last = [N; Kp] -> OpsC05.shp lens = [N; Kp] -> OpsC05.shp isp = [N; Kp; Kp] -> (1 <= w)%Z ->
+  TieRun.sim (Interp.run (SrcRun.ext05 sel) C05Src.cpsa_body (TieRun.vars0 ext nonext blank w nb b y last lens isp))
+             (TieRun.adv_tensor sel N Kp V tm1 ext nonext blank w nb b y last lens isp).
+Proof. exact TieRun.run_is_adv. Qed.
+Print Assumptions c05_source_advance_is_tensor_program.
+
+(* `if width < 1: raise RuntimeError("width must be positive")`, before anything else: whatever the other
+   arguments are *)
+Theorem c05_source_advance_raises_width : forall sel vs w,
+  Interp.lookup TieRun.width_var vs = Some (Syntax.VInt w) -> (w < 1)%Z ->
+  Interp.run (SrcRun.ext05 sel) C05Src.cpsa_body vs = Interp.Exc SrcRun.runtime_error (Interp.mkState vs []).
+Proof. exact TieRun.run_raises_width. Qed.
+Print Assumptions c05_source_advance_raises_width.
+
+(* composed with c05_prefix_matrix_invariant_step, purely about the interpreted source: the beam it returns
+   (topk = the stable selection), read back from its tensors, satisfies the invariant whenever the beam it was
+   given does *)
+Theorem c05_source_advance_keeps_invariant : forall V width fr bm res,
+  1 <= V -> 1 <= width -> inv V bm ->
+  SrcRun.src_advance V width fr bm (Tie.stable_choice V width fr bm) = Some res -> inv V (fst res).
+Proof. exact TieCheck.source_advance_keeps_invariant. Qed.
+Print Assumptions c05_source_advance_keeps_invariant.
+
+(* non-vacuity: a well-formed beam of three slots at t = 2 (the empty prefix, a one-token prefix and its
+   extension, one slot with an invalid mass), vocabulary 2, width 5 of 9 candidates; the interpreted source run on
+   it and what it returns *)
+Example c05_source_advance_nonvacuous :
+  wf TieCheck.ex_bm /\
+  SrcRun.src_advance 2 5 TieCheck.ex_fr TieCheck.ex_bm (Tie.stable_choice 2 5 TieCheck.ex_fr TieCheck.ex_bm)
+    = Some (advance 2 TieCheck.ex_fr TieCheck.ex_bm 5 (Tie.stable_choice 2 5 TieCheck.ex_fr TieCheck.ex_bm)) /\
+  b_lens (fst (advance 2 TieCheck.ex_fr TieCheck.ex_bm 5 (Tie.stable_choice 2 5 TieCheck.ex_fr TieCheck.ex_bm))) = [1; 1; 0; 2; 1] /\
+  b_y (fst (advance 2 TieCheck.ex_fr TieCheck.ex_bm 5 (Tie.stable_choice 2 5 TieCheck.ex_fr TieCheck.ex_bm)))
+    = [[1; 1; 0]; [0; 0; 0]; [0; 0; 0]; [1; 1; 0]; [1; 0; 0]] /\
+  snd (advance 2 TieCheck.ex_fr TieCheck.ex_bm 5 (Tie.stable_choice 2 5 TieCheck.ex_fr TieCheck.ex_bm))
+    = ([1; 0; 0; 1; 0], [true; false; true; false; false]).
+Proof. exact TieCheck.ex_nonvacuous_src. Qed.
